@@ -14,7 +14,7 @@ import (
 	"verif/harness/spec"
 )
 
-const ruleC06 = "scenarios drawn by rapid and executed under the race detector (shards run with GOMAXPROCS 2/4/16): a corpus of ~170 paths covering every node and comparator kind (accepted sentences of the reduced grammar + generated filter-heavy paths), 6 shared read-only documents, 3 configs; 2..16 goroutines, each running a derived program of 20..200 operations: Parse(path, config) then call; call a SHARED pre-parsed function on a shared document; Retrieve. No synchronisation between workers after the start barrier. " +
+const ruleC06 = "scenarios drawn by rapid and executed under the race detector (shards run with GOMAXPROCS 2/4/16): a corpus of ~170 paths covering every node and comparator kind (accepted sentences of the reduced grammar + generated filter-heavy paths), 9 shared read-only documents, 3 configs (no Config argument at all / functions / functions + accessor mode); 2..16 goroutines, each running a derived program of 20..200 operations: Parse(path, config) then call (one operation in three writes the path in a spelling this process has not parsed before); call a SHARED pre-parsed function on a shared document; Retrieve. No synchronisation between workers after the start barrier. " +
 	"Oracle: (1) the race detector (halt_on_error); (2) every operation's (result, error) equals the value computed for the same operation alone, sequentially, before the goroutines start; (3) the shared documents equal their snapshots afterwards. " +
 	"Non-trivial: >=2 goroutines call the same shared parsed function that contains a filter, and >=2 goroutines are inside Parse during the run. Distinct = distinct scenario."
 
@@ -45,7 +45,9 @@ func longArrayDoc(n int) string {
 
 var c06Once sync.Once
 var c06Corpus []string
-var c06ASTs []*gen.Path // the corpus paths converted by PEGI + tree2ast (nil when not convertible)
+var c06ASTs []*gen.Path        // the corpus paths converted by PEGI + tree2ast (nil when not convertible)
+var c06Variant = map[int]int{} // per corpus path: how many fresh spellings were handed out in this process
+var c06Plain []bool            // the corpus path parses without any Config (it uses no function)
 
 func c06Paths() []string {
 	c06Once.Do(func() {
@@ -65,6 +67,9 @@ func c06Paths() []string {
 					}
 				}
 				c06ASTs = append(c06ASTs, ast)
+				// decided from the AST, not by asking the library: nothing is parsed without a Config
+				// before the concurrent phase
+				c06Plain = append(c06Plain, ast != nil && !ast.HasFunc())
 			}
 		}
 		sentences := gen.ReducedSentences()
@@ -100,7 +105,8 @@ func drawC06(rt *rapid.T) *Case {
 }
 
 type c06Op struct {
-	kind int // 0: Parse+call, 1: shared function call, 2: Retrieve
+	kind int    // 0: Parse+call, 1: shared function call, 2: Retrieve
+	text string // the path as written for this operation (kinds 0 and 2)
 	path int
 	cfg  int
 	doc  int
@@ -160,7 +166,19 @@ func checkC06(c *Case, st *Stats) string {
 	programs := make([][]c06Op, ng)
 	for g := range programs {
 		for i := 0; i < nops; i++ {
-			op := c06Op{kind: next(3), path: next(len(paths)), cfg: 1 + next(2), doc: next(len(docs)), fn: next(len(shared))}
+			op := c06Op{kind: next(3), path: next(len(paths)), cfg: next(3), doc: next(len(docs)), fn: next(len(shared))}
+			if op.cfg == 0 && !c06Plain[op.path] {
+				op.cfg = 1 // only paths without functions can be parsed with no Config at all
+			}
+			op.text = paths[op.path]
+			if next(3) == 0 {
+				// a spelling of the path this process has not parsed before (blanks around a path are
+				// insignificant): a program parses new paths all the time, so whatever the library keeps
+				// per path string is met cold, during the concurrent phase
+				n := c06Variant[op.path]
+				c06Variant[op.path]++
+				op.text = strings.Repeat(" ", 1+n%41) + op.text + strings.Repeat(" ", (n/41)%41)
+			}
 			programs[g] = append(programs[g], op)
 		}
 	}
@@ -191,15 +209,22 @@ func checkC06(c *Case, st *Stats) string {
 		case 1:
 			return shared[op.fn].f(docs[op.doc])
 		case 0:
-			cfg, _ := c06Config(op.cfg)
-			f, err := jsonpath.Parse(paths[op.path], cfg)
+			var f func(interface{}) ([]interface{}, error)
+			var err error
+			if cfg, ok := c06Config(op.cfg); ok {
+				f, err = jsonpath.Parse(op.text, cfg)
+			} else {
+				f, err = jsonpath.Parse(op.text) // no Config argument at all
+			}
 			if err != nil {
 				return nil, err
 			}
 			return f(docs[op.doc])
 		}
-		cfg, _ := c06Config(op.cfg)
-		return jsonpath.Retrieve(paths[op.path], docs[op.doc], cfg)
+		if cfg, ok := c06Config(op.cfg); ok {
+			return jsonpath.Retrieve(op.text, docs[op.doc], cfg)
+		}
+		return jsonpath.Retrieve(op.text, docs[op.doc])
 	}
 	pathOf := func(op c06Op) int {
 		if op.kind == 1 {
